@@ -698,6 +698,8 @@ struct Outcome {
     complete: bool,
     error: Option<String>,
     panicked: bool,
+    /// flagged by the sequential report but not with one task per folder
+    concurrent_miss: bool,
 }
 
 fn short(s: String) -> String {
@@ -705,9 +707,13 @@ fn short(s: String) -> String {
 }
 
 async fn run_account(w: &World, out: &mut Outcome, deadline: tokio::time::Instant) -> bool {
+    run_account_with(w, out, deadline, 1).await
+}
+
+async fn run_account_with(w: &World, out: &mut Outcome, deadline: tokio::time::Instant, concurrency: usize) -> bool {
     let t0 = std::time::Instant::now();
     let mut complete = false;
-    match account_integrity(&w.target, &w.account_id, w.folders.clone(), 1).await {
+    match account_integrity(&w.target, &w.account_id, w.folders.clone(), concurrency).await {
         Err(e) => out.error = Some(format!("account_integrity: {}", e)),
         Ok((mut rx, _cancel)) => loop {
             match tokio::time::timeout_at(deadline, rx.recv()).await {
@@ -777,6 +783,16 @@ async fn run_reports(w: &World, t: Option<&Target>) -> Outcome {
     let files_first = t.map(|t| t.blob.is_some()).unwrap_or(false);
     let c1 = if files_first { run_files(w, &mut out, deadline).await } else { run_account(w, &mut out, deadline).await };
     let settled = t.map(|t| flagged(t, &out).is_some()).unwrap_or(false);
+    // what the sequential report flags must also be flagged when the
+    // folders are checked concurrently (one task per folder)
+    if let (Some(t), true, false) = (t, settled, files_first) {
+        let mut out2 = Outcome::default();
+        let deadline2 = tokio::time::Instant::now() + REPORT_HORIZON;
+        run_account_with(w, &mut out2, deadline2, w.folders.len().max(2)).await;
+        if flagged(t, &out2).is_none() {
+            out.concurrent_miss = true;
+        }
+    }
     let c2 = if settled {
         true
     } else if files_first {
@@ -796,6 +812,9 @@ async fn run_reports(w: &World, t: Option<&Target>) -> Outcome {
 /// verdict of one evaluation
 fn verdict(t: &Target, o: &Outcome, removal: bool) -> (&'static str, String) {
     let flagged = flagged(t, o);
+    if o.concurrent_miss {
+        return ("not_flagged_concurrent", "flagged with concurrency 1 but not when the account report checks the folders concurrently".into());
+    }
     if let Some(f) = flagged {
         return ("flagged", f);
     }
@@ -1256,7 +1275,7 @@ fn main() {
         }
         Value::Object(o)
     };
-    run.assume("SHA-256 is collision free for single-byte changes; the reports are run with concurrency 1 as the repository's own tests do");
+    run.assume("SHA-256 is collision free for single-byte changes; the account report is run with concurrency 1 (as the repository's own tests do) and, for every item it flags, again with one task per folder (task scheduling inside that second run is tokio's, not controlled)");
     run.assume("each report gets 10 s to complete; mutations are applied one at a time to a private copy and undone (restoration verified by digest and by a clean report)");
     let exhaustive = args.tier == Tier::Thorough;
     let mut cov = Map::new();
